@@ -43,6 +43,7 @@ func runC15(c *Ctx) {
 	c15R10(c)
 	c15R11(c)
 	c15R12(c)
+	c15R13(c)
 	rollbackSnapshotAs(c, c.R.Rule("R9", "K6/K3 (= C13.R10) a failed live apply leaves the old configuration: the config the in-place rollback re-imports is a snapshot exported before the desired config was committed", 3))
 }
 
@@ -781,4 +782,40 @@ func c15R12(c *Ctx) {
 		}
 		c.R.Check(compensated, r, "transactionalImport: a failed commit restores the in-memory configuration", c.Pos(call.Pos()), "compensated", "behind the failure edge of txn.Commit transactionalImport only returns the error: importPipeline has already changed the pipeline/connector/processor services in memory, the deferred Discard undoes the store only — the failed apply leaves Export/Plan/the next Start on a configuration that was never stored (a retry is a no-op, a restart silently reverts)", true)
 	}
+}
+
+// c15R13: F71 (known finding). "If an import fails, the previous configuration is fully retained": an import that had
+// already deleted a connector (it is gone from the new config, or an immutable field changed) and fails later rolls the
+// delete back by re-creating the connector through Create — without its State (position) and timestamps. The retained
+// pipeline restarts its source from scratch. The provisioning sibling of F25.
+func c15R13(c *Ctx) {
+	r := c.R.Rule("R13", "K8 a rolled-back connector delete keeps the position: deleteConnectorAction.Rollback (or what it calls) puts the deleted instance's State back on the re-created connector", 1)
+	fn := c.SSA(r, pProv, "(deleteConnectorAction).Rollback")
+	stateF := c.Field(r, pConn, "Instance", "State")
+	if fn == nil || stateF == nil {
+		return
+	}
+	restored := false
+	seen := map[*ssa.Function]bool{}
+	var walk func(f *ssa.Function, depth int)
+	walk = func(f *ssa.Function, depth int) {
+		if f == nil || seen[f] || depth < 0 || len(f.Blocks) == 0 {
+			return
+		}
+		seen[f] = true
+		if len(kit.FieldStores(f, stateF)) > 0 {
+			restored = true
+		}
+		for _, b := range f.Blocks {
+			for _, in := range b.Instrs {
+				if ci, ok := in.(ssa.CallInstruction); ok {
+					if h := ci.Common().StaticCallee(); h != nil && h.Pkg == fn.Pkg {
+						walk(h, depth-1)
+					}
+				}
+			}
+		}
+	}
+	walk(fn, 2)
+	c.R.Check(restored, r, "deleteConnectorAction.Rollback: the deleted connector's State is restored", c.Pos(fn.Pos()), "State put back", "deleteConnectorAction.Rollback re-creates the connector through createConnectorAction.Do → ConnectorService.Create, which builds a new instance: State (the source position / destination positions), LastActiveConfig and the timestamps of the deleted connector are gone although the import failed and 'retained' the previous configuration — the pipeline restarts its source from scratch", true)
 }
